@@ -207,6 +207,20 @@ def slot_form(e, tvar):
             idx = lit_value(cond["args"][1])
         th = _tail_value(e["then"])
         el = _tail_value(e["else"])
+        if idx is None and cond.get("k") == "LogicalOp" and _is_some(th) and _is_none(el):
+            # a conjunction / disjunction of flags: Some under more (or fewer) conditions than the slot's own flag
+            flags = []
+            ok_ = True
+            for part in (cond["l"], cond["r"]):
+                pp = peel(part)
+                if pp.get("k") == "Index" and var_of(pp["e"]) == tvar and isinstance(lit_value(pp["i"]), int):
+                    flags.append(lit_value(pp["i"]))
+                elif pp.get("k") == "Call" and callee(pp) == "core::ops::index::Index::index" and var_of(pp["args"][0]) == tvar and isinstance(lit_value(pp["args"][1]), int):
+                    flags.append(lit_value(pp["args"][1]))
+                else:
+                    ok_ = False
+            if ok_ and len(flags) == 2:
+                return ("multi-gated", (cond["op"], tuple(flags)), th["fields"][0]["e"])
         if idx is not None and _is_some(th) and _is_none(el):
             return ("gated", idx, th["fields"][0]["e"])
         if idx is not None and _is_none(th) and _is_some(el):
@@ -226,6 +240,8 @@ def slot_form(e, tvar):
         return ("some", None, e["fields"][0]["e"])
     if _is_none(e):
         return ("none", None, None)
+    if e.get("k") == "Call" and callee(e) in ("core::option::Option::<T>::filter", "core::option::Option::<T>::take_if") and e["args"]:
+        return ("filtered", None, None)
     return ("other", None, None)
 
 
@@ -487,6 +503,16 @@ def r9_slot_arity_and_gate(facts):
                 c.bad(sinst, swhere, "slot %d is unconditionally None: operand %d never receives its gradient" % (i, i))
             elif form == "inverted":
                 c.bad(sinst, swhere, "slot %d is Some exactly when t[%s] is false" % (i, idx))
+            elif form == "multi-gated":
+                op_, fl_ = idx
+                if op_ == "And":
+                    c.bad(sinst, swhere, "slot %d is Some only when t[%d] AND t[%d] hold: with operand %d tracked and the other untracked it receives no adjoint (and its consumer counter is not decremented)"
+                          % (i, fl_[0], fl_[1], i))
+                else:
+                    c.bad(sinst, swhere, "slot %d is Some when t[%d] OR t[%d] holds: an untracked operand %d is delivered to when the other one is tracked" % (i, fl_[0], fl_[1], i))
+            elif form == "filtered":
+                c.bad(sinst, swhere, "slot %d is passed through `Option::filter`: whether operand %d receives its adjoint depends on a predicate on the value (a tracked operand may get None: "
+                      "its consumer counter is then not decremented)" % (i, i))
             else:
                 c.unk(sinst, swhere, "slot %d has an unrecognised form: %s" % (i, show(s)[:120]))
         # early `return`s of the closure deliver slots as well: same arity, same gating
